@@ -86,8 +86,8 @@ def l1_prepare(ctx):
     rng = ctx.rng
     np, AffineMap, AT, AccessPattern, SchedulePattern, TemplatePattern = _mods()
     n_cases = ctx.n(200, 2500)
-    frm, tom, cmp_, evl, canon, innerd = [], [], [], [], [], []
-    m_frm, m_tom, m_cmp, m_evl, m_can, m_inn = [], [], [], [], [], []
+    frm, tom, cmp_, evl, canon, innerd, bat = [], [], [], [], [], [], []
+    m_frm, m_tom, m_cmp, m_evl, m_can, m_inn, m_bat = [], [], [], [], [], [], []
     for i in range(n_cases):
         # from_affine_map
         n, res = gen_map(rng)
@@ -127,6 +127,17 @@ def l1_prepare(ctx):
         evl.append(f"({coq_at(A, b, n2)}, {zlist(x)}, {out})")
         m_evl.append((A, b, x))
         ctx.count({"part": PART, "eval": [A, b, x]}, r >= 1 and n2 >= 2, f"evl{A}{b}{x}", "eval")
+        # eval on a batch (2-D array) of vectors; an empty batch only with the right width (a list of
+        # vectors does not carry the width of an empty array)
+        wid = n2 if rng.random() < 0.9 else n2 + 1
+        xs = [[rng.randrange(-9, 30) for _ in range(wid)] for _ in range(rng.choice([1, 1, 2, 3, 5] if wid != n2 else [0, 1, 2, 3, 5]))]
+        try:
+            out = "(Some " + coqlist(zlist(int(v) for v in row) for row in t.eval(np.array(xs, dtype=np.int_).reshape(len(xs), wid)).tolist()) + ")"
+        except ValueError:
+            out = "None"
+        bat.append(f"({coq_at(A, b, n2)}, {coqlist(zlist(x) for x in xs)}, {out})")
+        m_bat.append((A, b, xs))
+        ctx.count({"part": PART, "eval_batch": [A, b, xs]}, r >= 1 and n2 >= 2 and len(xs) >= 2, f"bat{A}{b}{xs}", "eval_batch")
         # access patterns
         bounds = [rng.choice([None, 1, 1, 2, 3, 4, 8, 0]) for _ in range(n2)]
         p = AccessPattern(bounds, t)
@@ -155,9 +166,12 @@ def l1_prepare(ctx):
             f"Definition cases_canon := {coqlist(canon)}.",
             "Eval vm_compute in failing (fun c : apattern * apattern => apattern_eqb (ap_canonicalize (fst c)) (snd c)) cases_canon.",
             f"Definition cases_inner := {coqlist(innerd)}.",
-            "Eval vm_compute in failing (fun c : apattern * Z * option apattern => match c with (p, d, r) => opt_ap_eqb (ap_inner_dims p d) r end) cases_inner."]
+            "Eval vm_compute in failing (fun c : apattern * Z * option apattern => match c with (p, d, r) => opt_ap_eqb (ap_inner_dims p d) r end) cases_inner.",
+            "Definition optvecs_eqb (a b : option (list vec)) := match a, b with Some x, Some y => list_eqb vec_eqb x y | None, None => true | _, _ => false end.",
+            f"Definition cases_batch := {coqlist(bat)}.",
+            "Eval vm_compute in failing (fun c : atrans * list vec * option (list vec) => match c with (t, xs, r) => optvecs_eqb (at_eval_batch t xs) r end) cases_batch."]
     names = [("from_affine_map", m_frm), ("to_affine_map", m_tom), ("compose", m_cmp), ("eval", m_evl),
-             ("AccessPattern.canonicalize", m_can), ("AccessPattern.inner_dims", m_inn)]
+             ("AccessPattern.canonicalize", m_can), ("AccessPattern.inner_dims", m_inn), ("eval (batch)", m_bat)]
 
     def finish(results):
         ok, out = results[0]
